@@ -232,6 +232,17 @@ func c11ParseTOC(data []byte) (*c11Layout, error) {
 	return l, nil
 }
 
+// where names the smallest part of the layout that contains the offset
+func (l *c11Layout) where(off int) string {
+	best, bestLen := "outside", 1<<31
+	for k, r := range l.parts {
+		if r.a <= off && off < r.b && r.b-r.a < bestLen {
+			best, bestLen = fmt.Sprintf("%s+%d", k, off-r.a), r.b-r.a
+		}
+	}
+	return best
+}
+
 // ---------------------------------------------------------------- cases
 
 type c11Case struct {
@@ -248,6 +259,7 @@ type c11Case struct {
 	Set     [][2]int `json:"set"`   // (offset, new byte value)
 	Replace string   `json:"replace"`
 	HasRepl bool     `json:"hasrepl"`
+	Where   string   `json:"where"` // part of the file layout that holds Off
 }
 
 func (c *c11Case) apply(data []byte) []byte {
@@ -455,10 +467,12 @@ type c11Job struct {
 	Cases   []c11Case         `json:"cases"`
 }
 
+// user CPU time of the process: a loop that does not end burns user time; kernel time (page
+// reclaim on an overcommitted machine, charged to whoever faults) is deliberately not counted.
 func c11CPU() time.Duration {
 	var ru syscall.Rusage
 	syscall.Getrusage(syscall.RUSAGE_SELF, &ru)
-	return time.Duration(ru.Utime.Nano() + ru.Stime.Nano())
+	return time.Duration(ru.Utime.Nano())
 }
 
 func c11Mem() uint64 {
@@ -570,8 +584,8 @@ func c11Busy() string {
 	buf = buf[:runtime.Stack(buf, true)]
 	for _, g := range strings.Split(string(buf), "\n\n") {
 		lines := strings.Split(g, "\n")
-		if len(lines) < 2 || strings.Contains(g, "TestVerif_C11_Child") {
-			continue
+		if len(lines) < 2 || strings.Contains(g, "c11Busy") {
+			continue // the watchdog itself
 		}
 		if !strings.Contains(lines[0], "[running") && !strings.Contains(lines[0], "[runnable") && !strings.Contains(lines[0], "[GC assist") {
 			continue
@@ -648,8 +662,21 @@ func TestVerif_C11_Child(t *testing.T) {
 				} else if c11CPU()-cpu0 > cpuLimit || time.Since(t0) > wallLimit {
 					verdict = "hang"
 				}
+				busy := ""
 				if verdict != "" {
-					emit(c11Result{I: c.I, Proc: verdict, Phase: ph, Load: "unknown", Ops: []c11OpResult{}, Func: c11Busy(),
+					busy = c11Busy()
+				}
+				if verdict == "hang" && busy == "" && time.Since(t0) <= wallLimit {
+					// CPU time was used but no goroutine is running zoekt code right now: not a loop in the
+					// code under test (garbage collection, a starved machine).  Keep waiting.
+					cpu0 = c11CPU()
+					verdict = ""
+				}
+				if verdict == "hang" && busy == "" {
+					verdict = "infra" // nothing happened for wallLimit: the parent gives up (inconclusive)
+				}
+				if verdict != "" {
+					emit(c11Result{I: c.I, Proc: verdict, Phase: ph, Load: "unknown", Ops: []c11OpResult{}, Func: busy,
 						Msg: fmt.Sprintf("cpu %v, memory +%d MB, wall %v", c11CPU()-cpu0, (c11Mem()-mem0)>>20, time.Since(t0).Round(time.Millisecond))})
 					out.Close()
 					os.Exit(3)
@@ -878,10 +905,23 @@ func TestVerif_C11_Faults(t *testing.T) {
 		}
 		cases = append(cases, c)
 	}
+	if only := os.Getenv("C11_ONLY"); only != "" {
+		var keep []c11Case
+		for _, c := range cases {
+			if c.Family == only {
+				keep = append(keep, c)
+			}
+		}
+		cases = keep
+	}
 	for i := range cases {
 		cases[i].I = i
 		if cases[i].Set == nil {
 			cases[i].Set = [][2]int{}
+		}
+		cases[i].Where = "sidecar"
+		if cases[i].Target == "shard" {
+			cases[i].Where = layouts[strings.TrimSuffix(cases[i].Base, "+meta")].where(cases[i].Off)
 		}
 	}
 
@@ -923,7 +963,7 @@ func TestVerif_C11_Faults(t *testing.T) {
 				outPath := fmt.Sprintf("%s/child_%d_%d.out", root, wk, run)
 				cmd := exec.Command(os.Args[0], "-test.run", "^TestVerif_C11_Child$", "-test.count=1", "-test.timeout", "0")
 				cmd.Env = append(os.Environ(), "C11_CHILD_JOB="+jobPath, "C11_CHILD_OUT="+outPath,
-					"C11_CHILD_FROM="+strconv.Itoa(from), "C11_CHILD_STRIDE="+strconv.Itoa(nw), "GOMEMLIMIT=1GiB", "GOMAXPROCS=4")
+					"C11_CHILD_FROM="+strconv.Itoa(from), "C11_CHILD_STRIDE="+strconv.Itoa(nw), "GOMEMLIMIT=1GiB", "GOMAXPROCS=4", "GOTRACEBACK=all")
 				var stderr bytes.Buffer
 				cmd.Stdout = &stderr
 				cmd.Stderr = &stderr
@@ -965,7 +1005,7 @@ func TestVerif_C11_Faults(t *testing.T) {
 					}
 					mu.Lock()
 					results[last] = &c11Result{I: last, Proc: proc, Phase: lastPhase, Load: "unknown", Ops: []c11OpResult{}, Msg: msg}
-					blame[last] = [2]string{fn, c11Tail(se, 1500)}
+					blame[last] = [2]string{fn, c11Tail(se, 40000)}
 					mu.Unlock()
 				}
 				from = last + nw
@@ -992,7 +1032,7 @@ func TestVerif_C11_Faults(t *testing.T) {
 			phase = phase[:i] // search:3 -> search
 		}
 		tr.Emit(c11M{"ev": "fault", "i": c.I, "family": c.Family, "base": c.Base, "target": c.Target, "section": c.Section, "part": c.Part,
-			"pos": c.Pos, "mut": c.Mut, "off": c.Off, "nset": len(c.Set), "trunc": c.Trunc, "set": c.Set,
+			"pos": c.Pos, "mut": c.Mut, "off": c.Off, "where": c.Where, "nset": len(c.Set), "trunc": c.Trunc, "set": c.Set,
 			"proc": r.Proc, "phase": phase, "phasefull": r.Phase, "load": r.Load, "ops": r.Ops, "msg": r.Msg, "func": blame[i][0] + r.Func, "stderr": blame[i][1]})
 	}
 	t.Logf("c11: %d cases (%d fault classes do not exist in the files), %d child processes", len(cases), skipped, children)
